@@ -6,6 +6,10 @@ ids = [p['id'] for p in props]
 
 # id -> (level, technique, text, note)
 CLAIMED = {
+ "C30": ("exploration", "twin-connection differential over the compiled Python extension: bound parameters vs the monitor's own literal substitution, plus read-back equality, after every call of random call histories",
+         "The extension is built from /repo's working tree and driven from Python with histories of execute() calls that reuse SQL texts with different tuples; outcome class, fetched rows, table contents and read-back values are compared after every call.",
+         "Placeholders inside string literals, delimited identifiers and -- comments are text; bool values are compared by Python equality."),
+
  "C31": ("exploration", "round-trip and reference-record oracle over the CLI's own \\copy code (MetaCommand::parse + SqlExecutor::handle_copy compiled into the harness), with canary table and table-list monitor",
          "Hostile record sets are exported and re-imported, and harness-written RFC 4180 CSV / JSON files (incl. hostile keys) are imported; the destination table read through the storage API must equal the records and nothing else may change.",
          "The CLI modules are driven in-process rather than through a spawned binary; an empty unquoted CSV field may read as NULL or ''."),
@@ -143,7 +147,8 @@ m = {
    "source_commits": hooks,
    "add_only": True,
  },
- "engines": [{"name":"vverif","path":"/verif/harness","serves_properties":sorted(CLAIMED),"kind_free_text":"Rust harness: client-boundary session, generators, twin/model/reference oracles, probe counters, sharded runner with per-case CPU watchdog and crash attribution"}],
+ "engines": [{"name":"vverif","path":"/verif/harness","serves_properties":sorted(x for x in CLAIMED if x != "C30"),"kind_free_text":"Rust harness: client-boundary session, generators, twin/model/reference oracles, probe counters, sharded runner with per-case CPU watchdog and crash attribution"},
+             {"name":"c30_driver","path":"/verif/checks.d","serves_properties":["C30"],"kind_free_text":"Python driver (checks.d/c30_driver.py) over the compiled vibesql Python extension, built from /repo's working tree by checks.d/C30.sh; 16 worker processes, per-case seeded RNG"}],
  "checks": [],
  "not_applicable": [],
  "notes": "Technique family: runtime monitoring and sanitizers. Exit 0 = held on what was observed (KNOWN-FINDING lines for listed open findings), 1 = VIOLATION not listed in known_findings.json, 2 = inconclusive (never folded into pass or fail).",
@@ -157,7 +162,7 @@ for i in ids:
           "thorough_cmd": f"./check {i} thorough",
           "evidence_file": f"/verif/evidence/{i}.json",
           "replay_cmd_template": "./check --replay {path}",
-          "engine": "vverif",
+          "engine": "c30_driver" if i == "C30" else "vverif",
           "level_claimed": {"category": lvl, "text": text, "design_ref": f"DESIGN.md section 7, {i}"},
           "level_note": note,
           "technique": tech,
